@@ -1,18 +1,18 @@
 CONSTANTS
   Server = {1, 2, 3}
   MaxTerm = 2
-  MaxProposals = 1
-  MaxCrashes = 1
-  MaxDrops = 1
+  MaxProposals = 0
+  MaxCrashes = 0
+  MaxDrops = 0
   MaxDups = 0
   MaxHeartbeats = 0
   MaxLog = 3
-  MaxNet = 4
+  MaxNet = 6
   MaxEnts = 0
   SimDepth = 0
   W_CommitAnyTerm = FALSE
   W_VoteIgnoreVoted = FALSE
-  W_VoteIgnoreLog = FALSE
+  W_VoteIgnoreLog = TRUE
   W_NoPersistVote = FALSE
   W_AppendAlwaysTruncates = FALSE
   W_HeartbeatCommitUnbounded = FALSE
@@ -21,5 +21,4 @@ INIT Init
 NEXT Next
 CONSTRAINT NetBound
 VIEW view
-INVARIANTS ElectionSafety LogMatching StateMachineSafety LeaderCompleteness CommitWithinLog PersistedMatchesVolatile
-PROPERTY HardStateMonotonic
+INVARIANT EmitAttack
